@@ -110,6 +110,27 @@ func (s *vScenario) crash(ev vStep, atStep int) (string, string, error) {
 				c.ExpSettings = &ps
 			}
 		}
+	case "cache":
+		// kill inside the append of a converter cache record: the newest cache file loses the end of its last record
+		cents, _ := os.ReadDir(filepath.Join(base, "index"))
+		for _, e := range cents {
+			if !strings.HasSuffix(e.Name(), ".cidx") {
+				continue
+			}
+			p := filepath.Join(base, "index", e.Name())
+			b, err := os.ReadFile(p)
+			if err != nil {
+				return "", "", err
+			}
+			k := 1 + ev.Cut%24
+			if len(b) <= 16+k { // nothing but the file header: leave it
+				continue
+			}
+			if err := os.WriteFile(p, b[:len(b)-k], 0o644); err != nil {
+				return "", "", err
+			}
+			c.Note = fmt.Sprintf("cache file %s cut by %d bytes to %d", e.Name(), k, len(b)-k)
+		}
 	case "idx":
 		// kill inside the write of a job's output file: the newest index file that is not served yet
 		served := map[string]bool{}
